@@ -102,4 +102,38 @@ theorem C10_numbers_distinct_every_interleaving (evs : List Chf.LockDiscipline.C
 theorem C10_give_back_collides :
     ¬ ((({} : Chf.LockDiscipline.CSt).run [.take, .take, .giveBack, .take]).taken).Nodup := by decide
 
+/-! ### the reference can be named: it is one path segment
+
+  "Until released, that reference designates that session": the reference is the last element of the session's resource URI
+  (`…/chargingdata/<reference>/update`), and the router splits the decoded path at `/`.  A reference with a path separator in it
+  could never be named by a request (the defect repaired in a81e873 `fix: a consumer name with a path separator cannot open a session`:
+  `nFName` "a/b" was answered 201 and every update and release of that session 404).  An accepted SUPI has no separator
+  (`supiAccepted`), an accepted consumer name has none (such creates are refused; the driver hands them to the model as requests
+  without consumer identification), and neither `-` nor a decimal digit is one. -/
+
+theorem decimalFuel_no_slash (f n : Nat) : (47 : Nat) ∉ decimalFuel f n := by
+  induction f generalizing n with
+  | zero => simp only [decimalFuel, List.mem_singleton]; omega
+  | succ f ih =>
+    unfold decimalFuel
+    split
+    · simp only [List.mem_singleton]; omega
+    · simp only [List.mem_append, List.mem_singleton, not_or]
+      exact ⟨ih _, by omega⟩
+
+theorem C10_reference_is_one_path_segment (supi nf : Bytes) (n : Nat) (hs : (47 : Nat) ∉ supi) (hn : (47 : Nat) ∉ nf) :
+    (47 : Nat) ∉ sessionId supi nf n := by
+  unfold sessionId decimal
+  simp only [List.mem_append, List.mem_singleton, not_or]
+  exact ⟨⟨⟨hs, hn⟩, by decide⟩, decimalFuel_no_slash _ _⟩
+
+/-- … in particular for every SUPI the CHF accepts -/
+theorem C10_accepted_supi_has_no_separator (supi : Bytes) (h : supiAccepted supi = true) : (47 : Nat) ∉ supi := by
+  unfold supiAccepted at h
+  simp only [Bool.and_eq_true, Bool.not_eq_true', decide_eq_true_eq] at h
+  intro hm
+  have : supi.contains 47 = true := List.contains_iff_mem.mpr hm
+  rw [h.1.1.2] at this
+  exact Bool.noConfusion this
+
 end Chf.Props.C10
